@@ -185,6 +185,10 @@ func main() {
 		pts = pts[:5]
 	}
 	zs := []*big.Int{big.NewInt(1), new(big.Int).Sub(ref.P, big.NewInt(2))}
+	if th { // thorough: the whole point alphabet (both signs, small x / small y, x in [n,p), endomorphism images) x 3 representatives
+		pts = mc.PointAlphabet(3, R.Seed, 4)
+		zs = append(zs, new(big.Int).Set(ref.C))
+	}
 	R.Bound("points", len(pts))
 	R.Bound("representatives", len(zs))
 	R.Bound("paths", paths)
